@@ -217,6 +217,58 @@ def _ob(k, r):
     return {"kind": k, "out": None}
 
 
+# ------------------------------------------------------------------ purity sweep on the document family
+def sweep_state(st):
+    """parse one exported document, validate the whole value universe (each value twice), and
+    compare every observable of the element tree before and after."""
+    import docfamily as df
+    _, pyvals = df.values()
+    sj = codec.schema_to_json(st["doc"])
+    kind, el = drive.parse_labelled(sj)
+    if kind != "ok":
+        return None
+    try:
+        pre = drive.project_element(el)
+    except ValueError:
+        return None
+    snap0 = drive.deep_snapshot([el])
+    texts0 = _texts(el)
+    fresh = drive.build_element(pre)
+    flags = {}
+    try:
+        flags["eqFreshBefore"] = bool(el == fresh)
+    except Exception:  # noqa
+        flags["eqFreshBefore"] = False
+    input_same, repeat_same = True, True
+    for v in pyvals:
+        vin = copy.deepcopy(v)
+        k1, r1 = drive.call_raw(el, vin)
+        if codec.norm_real(vin) != codec.norm_real(v):
+            input_same = False
+        k2, r2 = drive.call(el, v)
+        if k1 != k2:
+            repeat_same = False
+        elif k1 == "ok":
+            try:
+                if codec.norm_real(drive.project(r1)) != codec.norm_real(drive.project(r2)):
+                    repeat_same = False
+            except Exception:  # noqa
+                pass
+    flags["inputSame"], flags["repeatSame"] = input_same, repeat_same
+    flags["snapSame"] = drive.deep_snapshot([el]) == snap0
+    texts1 = _texts(el)
+    flags["reprSame"], flags["jsonSame"], flags["pySame"] = (a == b for a, b in zip(texts0, texts1))
+    try:
+        flags["eqFreshAfter"] = bool(el == fresh)
+    except Exception:  # noqa
+        flags["eqFreshAfter"] = False
+    try:
+        post = drive.project_element(el)
+    except ValueError:
+        post = {"cls": "Unprojectable", "kw": {}, "elems": [], "name": ""}
+    return dict(pre=pre, post=post, flags=flags)
+
+
 # ------------------------------------------------------------------ driver
 def _heap_tla(h):
     return "[" + ", ".join(f"{x} |-> {tlajson_to_tla(h[x])}" for x in ("E", "C", "D")) + "]"
@@ -315,6 +367,31 @@ def run(pid, tier, replay_file=None):
                           f"validation rewrote attributes of pre-existing objects (deep vars() snapshot differs): {_h(st['hist'])}",
                           dict(init=init, state=st, observed=_slim(rec)))
 
+    # ---- C08: purity sweep over the document family
+    sweep_info = {}
+    if pid == "C08" and not replay_file:
+        import docfamily as df
+        from checks_doc import _kwsig
+        dstates, dinfo = df.stage1(tier)
+        if tier == "quick":
+            dstates = [s for s in dstates if s.get("src") != "sim"] + [s for s in dstates if s.get("src") == "sim"][:2500]
+        sweeps = drive.pmap(sweep_state, dstates, chunksize=16)
+        n = 0
+        for st, sw in zip(dstates, sweeps):
+            if sw is None:
+                continue
+            n += 1
+            eid = len(index) + 1
+            index[eid] = ("sweep", st)
+            fl = sw["flags"]
+            ftxt = "[" + ", ".join(f"{k} |-> {'TRUE' if fl.get(k, True) else 'FALSE'}" for k in
+                                   ("inputSame", "repeatSame", "snapSame", "reprSame", "jsonSame", "pySame",
+                                    "eqFreshBefore", "eqFreshAfter")) + "]"
+            events.append((eid, '[id |-> %d, op |-> "sweep", pre |-> %s, post |-> %s, flags |-> %s]'
+                           % (eid, tlajson_to_tla(sw["pre"]), tlajson_to_tla(sw["post"]), ftxt)))
+        sweep_info = dict(documents_swept=n, calls_per_document=2 * len(df.values()[1]),
+                          tlc=dict(bfs=dinfo.get("bfs"), seeds=dinfo.get("seed"), sim=dinfo.get("sim")))
+
     # ---- trace validation, several TLC processes at once
     from concurrent.futures import ThreadPoolExecutor
     adj_states = 0
@@ -335,6 +412,14 @@ def run(pid, tier, replay_file=None):
             rejected.update(rej)
             adj_states += n
     for eid, clauses in sorted(rejected.items()):
+        if isinstance(index[eid], tuple):
+            dst = index[eid][1]
+            from checks_doc import _kwsig
+            for cl in clauses:
+                rep.violation(("C08", cl, "sweep", _kwsig(dst["doc"])),
+                              f"{cl}: validating the value universe against the element parsed from "
+                              f"{json.dumps(codec.schema_to_json(dst['doc']))[:240]}", dict(state=dst))
+            continue
         st, rec = states[index[eid]], recs[index[eid]]
         op = st["hist"][-1] if st["hist"] else {"op": "subclass", "x": "D"}
         for cl in clauses:
@@ -348,14 +433,15 @@ def run(pid, tier, replay_file=None):
     coverage = dict(
         states=sum(m.get("distinct", m.get("states", 0)) for m in tlc_meta) + adj_states,
         transitions=sum(m.get("states", 0) for m in tlc_meta) + len(events),
-        traces_validated_against_impl=len(states),
-        evaluations=len(states), distinct_nontrivial=len(states) - 1,
+        traces_validated_against_impl=len(states) + sweep_info.get("documents_swept", 0),
+        evaluations=len(states) + sweep_info.get("documents_swept", 0), distinct_nontrivial=len(states) - 1,
         rule="one case = one history (sequence of reconfiguration steps and validation calls on E, C, D(C)) replayed on fresh real objects; all histories within the bound are distinct and non-trivial except the empty one",
         samples=[dict(history=_h(states[i]["hist"]), last_step_flags=recs[i].get("flags"))
                  for i in (1, len(states) // 2, len(states) - 1) if i < len(states)],
         exhaustive=False, bounds=dict(bfs=TIERS[tier] if not replay_file else None, simulate=SIM[tier]),
         bfs_exhaustive_within_bound=True,
         tlc=tlc_meta, operations=dict(ops), drift=dict(drift), events_validated=len(events),
+        document_family_sweep=sweep_info,
         design_level="TLC checked the action properties PureValidate and ParentIsolated on Lifecycle for every BFS instance")
     return rep.finish(coverage, time.time() - t0,
                       assumptions=["A1 bounded exhaustiveness (heap of three objects, fixed argument sets)",
